@@ -87,11 +87,141 @@ static std::string op_fen_rt(std::istringstream& is)
     return f1 + " | " + f2 + " | " + (same ? "1" : "0");
 }
 
+// ---- full representation dump (C02/C03/C04): every private field, lists in order ----
+static std::string obs_rep(Position& p)
+{
+    std::ostringstream o;
+    o << int(p._current_side) << " " << int(p._half_move_counter) << " " << p._ply_counter << " B";
+    for (int s = 0; s < 64; ++s) o << " " << int(p._board[s]);
+    o << " L";
+    for (int pc = 1; pc < 13; ++pc)
+    {
+        o << " [";
+        for (int i = 0; i < p._piece_count[pc]; ++i) o << (i ? "," : "") << int(p._piece_position[pc][i]);
+        o << "]";
+    }
+    o << " K";
+    for (int k = 1; k < 7; ++k) o << " " << hex(p._by_piece_kind_bb[k]);
+    o << " C " << hex(p._by_color_bb[0]) << " " << hex(p._by_color_bb[1]);
+    o << " R " << int(p._castling_rights) << " E " << int(p._enpassant_square);
+    o << " Z " << hex(p._zobrist_hash._piece_key) << " " << hex(p._zobrist_hash._pawn_key) << " "
+      << hex(p._zobrist_hash._enpassant_key) << " " << hex(p._zobrist_hash._castling_key) << " "
+      << hex(p._zobrist_hash._color_key);
+    o << " H " << p._history_counter;
+    for (int i = std::max(0, p._history_counter - 3); i < p._history_counter; ++i) o << " " << hex(p._history[i]);
+    // observers
+    o << " O " << hex(p.hash()) << " " << hex(p.pawn_hash()) << " " << int(p.is_repeated()) << int(p.threefold_repetition())
+      << int(p.rule50()) << int(p.enough_material());
+    return o.str();
+}
+
+// walk <fen> | tok...   tok = uci move (do) | u (undo last) | n (null move) | un (undo null)
+static std::string op_walk(std::istringstream& is)
+{
+    GameCase g = parse_game(is);
+    Position p(g.fen);
+    std::vector<std::pair<Move, MoveInfo>> st;
+    std::string out = obs_rep(p);
+    for (const std::string& t : g.moves)
+    {
+        if (t == "u" || t == "un")
+        {
+            if (st.empty()) { out += " ; EMPTY"; break; }
+            auto [m, mi] = st.back();
+            st.pop_back();
+            if (t == "u") p.undo_move(m, mi); else p.undo_null_move(mi);
+        }
+        else if (t == "n")
+        {
+            MoveInfo mi = p.do_null_move();
+            st.push_back({NO_MOVE, mi});
+        }
+        else
+        {
+            Move m = p.parse_uci(t);
+            MoveInfo mi = p.do_move(m);
+            st.push_back({m, mi});
+        }
+        out += " ; " + obs_rep(p);
+    }
+    return out;
+}
+
+// ---- C03: engine-only rich observer (rep + legal moves + static evaluation) ----
+static PositionScorer* g_scorer = nullptr;
+static std::string obs_full(Position& p)
+{
+    if (!g_scorer) g_scorer = new PositionScorer();
+    std::string o = obs_rep(p);
+    o += " M " + obs_legal(p);
+    o += " V " + std::to_string(PositionScorer().score(p)) + " " + std::to_string(g_scorer->score(p));
+    o += " F " + p.fen();
+    return o;
+}
+
+static std::string op_walk_gen(std::istringstream& is, Observer obs)
+{
+    GameCase g = parse_game(is);
+    Position p(g.fen);
+    std::vector<std::pair<Move, MoveInfo>> st;
+    std::string out = obs(p);
+    for (const std::string& t : g.moves)
+    {
+        if (t == "u" || t == "un")
+        {
+            if (st.empty()) { out += " ; EMPTY"; break; }
+            auto [m, mi] = st.back();
+            st.pop_back();
+            if (t == "u") p.undo_move(m, mi); else p.undo_null_move(mi);
+        }
+        else if (t == "n")
+        {
+            MoveInfo mi = p.do_null_move();
+            st.push_back({NO_MOVE, mi});
+        }
+        else
+        {
+            Move m = p.parse_uci(t);
+            MoveInfo mi = p.do_move(m);
+            st.push_back({m, mi});
+        }
+        out += " ; " + obs(p);
+    }
+    return out;
+}
+
+// ---- C04: keys: incremental, pawn key, and the key of the same position reloaded from its FEN ----
+static std::string obs_key(Position& p)
+{
+    Position q(p.fen());
+    std::ostringstream o;
+    std::string f = p.fen();
+    // first four FEN fields identify the position
+    size_t pos = 0; int sp = 0;
+    while (pos < f.size() && sp < 4) { if (f[pos] == ' ') ++sp; ++pos; }
+    o << f.substr(0, pos ? pos - 1 : 0) << " | " << hex(p.hash()) << " " << hex(p.pawn_hash()) << " " << hex(q.hash()) << " " << hex(q.pawn_hash());
+    return o.str();
+}
+
+// ---- C07: predicates ----
+static std::string obs_preds(Position& p)
+{
+    std::ostringstream o;
+    o << int(p.is_in_check(p.color())) << int(p.is_checkmate()) << int(p.is_stalemate()) << int(p.is_repeated())
+      << int(p.threefold_repetition()) << int(p.rule50()) << int(!p.enough_material());
+    return o.str();
+}
+
 static std::string dispatch_more(const std::string& op, std::istringstream& is)
 {
     if (op == "g_legal") return run_game(is, obs_legal);
     if (op == "g_fen") return run_game(is, obs_fen);
     if (op == "g_uci") return run_game(is, obs_uci);
     if (op == "fen_rt") return op_fen_rt(is);
+    if (op == "g_rep") return run_game(is, obs_rep);
+    if (op == "walk") return op_walk(is);
+    if (op == "walkx") return op_walk_gen(is, obs_full);
+    if (op == "g_key") return run_game(is, obs_key);
+    if (op == "g_preds") return run_game(is, obs_preds);
     return "UNKNOWN-OP " + op;
 }
